@@ -175,3 +175,15 @@ PROPS["C13"] = {
         {"bin": "c13", "quick": {"cases": 2500, "workers": 16, "budget": 200}, "thorough": {"cases": 40000, "workers": 16, "budget": 1500}},
     ],
 }
+
+PROPS["C12"] = {
+    "level": "exploration",
+    "rule": "rapidcheck-generated: container {WAV, WAVEX, RF64, AIFF, CAF} x encoding x channels x subset of {strings, bext, cart, cues, instrument, channel map} the static support table allows (plus, one case in eight, the items it does not allow) x random order of the set calls x values: strings of length classes {1-4, odd, 63/64/127/128/255/256, <= 60, 200-2000, even} of printable ASCII + 2-byte UTF-8, bext/cart with every fixed field filled (to its width or partially), coding history / tag text 0..255 bytes with CR, LF, CRLF mixes, 0..100 cue points with names, 0..16 loops of every mode, a legal channel layout x >= 1000 frames x late variant (one item set again after audio written through sf_writef_short or through sf_write_raw); "
+            "oracle: get calls after re-open return the model value (identity except: software suffix, CRLF-normalised history + library line, the fields the container's chunk layout holds); audio and all items not set equal a twin file; non-trivial = >= 2 kinds in one file or a boundary-length string; distinct = hash of the case",
+    "assumptions": BASE_ASSUME + ["which (container, item) pairs must round-trip is a static table in the harness transcribed from the chunk definitions (not learned from the library)",
+                                  "WAV smpl cannot hold a negative detune (unsigned pitch fraction): detune is asserted for values >= 0 only; cue names are asserted for AIFF only (WAV never writes them)",
+                                  "software strings are kept <= 64 bytes (the 128-byte staging buffer of psf_store_string is not under test)"],
+    "stages": [
+        {"bin": "c12", "quick": {"cases": 6000, "workers": 16, "budget": 200}, "thorough": {"cases": 40000, "workers": 16, "budget": 1500}},
+    ],
+}
